@@ -86,16 +86,19 @@ def char_class(s):
 
 
 # ----------------------------------------------------------------------------- model wire
-ESC_CODE = {"EscNone": "0", "EscSax": "1", "EscSaxQuot": "2", "NotText": "3", "none": "0", "sax": "1", "saxq": "2"}
 CTX_CODE = {"AttrDq": "a", "Text": "t"}
 
 
+def esc_code(applied):
+    """Escaping as the model runner reads it: 0 none, A..P = escape with a sub-dictionary (bits q t l r)."""
+    if applied in (None, "none"):
+        return "0"
+    return chr(65 + sum(b for b, f in zip((8, 4, 2, 1), "qtlr") if f in applied[3:]))
+
+
 def py_escape(applied, s):
-    if applied in ("sax", "EscSax"):
-        return sax_escape(s)
-    if applied in ("saxq", "EscSaxQuot"):
-        return sax_escape(s, {'"': "&quot;"})
-    return s
+    import tx_c05 as T
+    return T.py_escape(applied, s)
 
 
 def model_slot_to_py(mo):
@@ -147,6 +150,7 @@ def probe_outcome(probe, payload, base=None):
     return ("ok", val, shape)
 
 
+GRID_ESC = [("0", "none"), ("A", "sax"), ("I", "saxq"), ("P", "saxqtlr"), ("B", "saxr"), ("M", "saxqt")]
 GRID = {"a": {"xml": '<w xmlns:q="urn:q"><r a="\x00"/></w>', "path": "r", "attr": "a"},
         "t": {"xml": '<w xmlns:q="urn:q"><r>\x00</r></w>', "path": "r", "attr": ""}}
 
@@ -391,29 +395,29 @@ def _run_rest(ck, tier, rng, T, meta, sinks, by_id, scratch):
     malformed += ["\t", "\n", "\r", "\r\n", "a\r\nb", "a\rb", "a\r\r\nb", "\n\r", "a\tb\nc\rd", " ", "  ", ""]
     # (a) escape functions
     for s in grid_strings:
-        for e in ("1", "2"):
+        for e, ap in GRID_ESC[1:]:
             cases.append(["esc", e, s])
-            expect.append(("esc", e, s, " ".join(str(ord(c)) for c in py_escape({"1": "sax", "2": "saxq"}[e], s))))
+            expect.append(("esc", e, s, " ".join(str(ord(c)) for c in py_escape(ap, s))))
     # (b) the two slot lexers on a minimal template, escaped and raw
     bases = {c: probe_outcome(GRID[c], "x")[2] for c in "at"}
     for s in grid_strings + malformed:
         for c in "at":
-            for e in ("0", "1", "2"):
-                if s in malformed and e != "0" and rng.random() < 0.5:
+            for e, ap in GRID_ESC:
+                if s in malformed and e != "0" and rng.random() < 0.6:
                     continue
-                payload = py_escape({"0": "none", "1": "sax", "2": "saxq"}[e], s)
+                payload = py_escape(ap, s)
                 r = probe_outcome(GRID[c], payload, bases[c])
                 cases.append(["slot", c, e, s])
                 expect.append(("slot", c + e, s, r))
     # several slots in one template (histories): a:none, t:sax, a:saxq
     for _ in range(100 if quick else 1500):
         trip = [rng.choice(grid_strings) for _ in range(3)]
-        ces = [("a", "0"), ("t", "1"), ("a", "2")]
+        ces = [("a", "0"), ("t", "A"), ("a", "P")]
         fields = ["multi"]
         rs = []
         for (c, e), s in zip(ces, trip):
             fields += [c + e, s]
-            rs.append(probe_outcome(GRID[c], py_escape({"0": "none", "1": "sax", "2": "saxq"}[e], s), bases[c]))
+            rs.append(probe_outcome(GRID[c], py_escape(dict(GRID_ESC)[e], s), bases[c]))
         cases.append(fields)
         expect.append(("multi", "", tuple(trip), rs))
     # (c) every sink: the real template with the slot filled the way the code fills it
@@ -429,7 +433,7 @@ def _run_rest(ck, tier, rng, T, meta, sinks, by_id, scratch):
             continue
         for s in sink_strings:
             r = probe_outcome(pr, py_escape(s_["applied"], s), base[2])
-            cases.append(["slot", CTX_CODE[s_["ctx"]], ESC_CODE[s_["applied"]], s])
+            cases.append(["slot", CTX_CODE[s_["ctx"]], esc_code(s_["applied"]), s])
             expect.append(("sink", s_["sig"], s, r))
             n_sink_cases += 1
     diffs, first = 0, None
@@ -495,7 +499,7 @@ def _run_rest(ck, tier, rng, T, meta, sinks, by_id, scratch):
     for o in failures:
         for sid in meta["entry_points"].get(o.ep, {}).get("sinks", []):
             s_ = by_id[sid]
-            q_cases.append(["slot", CTX_CODE[s_["ctx"]], ESC_CODE[s_["applied"]], o.s])
+            q_cases.append(["slot", CTX_CODE[s_["ctx"]], esc_code(s_["applied"]), o.s])
             q_meta.append((o, s_))
     explained = {}
     if q_cases and have_model:
@@ -595,7 +599,7 @@ def replay(rec):
     for sid in meta["entry_points"].get(key, {}).get("sinks", []):
         s_ = by_id[sid]
         try:
-            mo = run_model("C05", [["slot", CTX_CODE[s_["ctx"]], ESC_CODE[s_["applied"]], s]])[0]
+            mo = run_model("C05", [["slot", CTX_CODE[s_["ctx"]], esc_code(s_["applied"]), s]])[0]
         except Exception as e:  # noqa
             mo = "model runner unavailable: %r" % e
         print("model      : sink %s (%s, escaping %s): %s" % (s_["sig"], s_["ctx"], s_["applied"], mo[:120]))
